@@ -1,4 +1,5 @@
 import SfVerif.Gen.Abi
+import SfVerif.Gen.AbiTool
 /-! `trampoline/src/lib.rs`: the decision logic of `TrampolineCodegen::new` + `apply` over a module
     summary (its imports and the number of memories it defines). Tables come from Gen/Abi. -/
 namespace SfVerif.Tramp
